@@ -3,6 +3,7 @@ C16 — property theorems (derivation trees: UDF / UDX / dictionary round trips,
 -/
 import Verif.C16.Scan
 import Verif.C16.Parent
+import Verif.Generated.TablesC16
 
 namespace Verif.C16
 
@@ -184,5 +185,78 @@ theorem parent_spec (evs : List Ev) :
     (runP evs 0 []).map Prod.snd = run evs [] ∧
     ∀ t, runP evs 0 [] = .ok t → Cons t.1 = true :=
   ⟨runP_snd evs 0 [], fun t h => runP_consistent evs 0 [] t trivial h⟩
+
+/-! ## Pins: the constants of `delphin/derivation.py` that the hand-written model mirrors
+
+`Generated/TablesC16.lean` is rewritten on every run from the live module (`harness/c16.py: tables()`):
+the compiled pattern `_udf_re` (pattern text, flags, group names in index order), `_all_fields`, the
+namedtuple field lists, the constants of the anchored functions (from their code objects, nested code
+objects included; docstrings and exception message texts dropped; non-strings tagged `#repr`), the
+`re`/`str` operations named by the parsers, and the default arguments.  A change to any of them must
+be followed in the model: this theorem stops checking, which the check reports as a broken proof
+obligation and then searches for a failing input.
+
+Which model definition hand-codes which constant:
+* `c16UdfRePattern` — the four alternatives in this order are `matchAt` = `alt3` (terminal:
+  `takeString`, `lkbPart` for `\s+\d+\s+\d+`, `tokIter`/`tokGroup` for `(?:\s+{token}\s+{string})*`,
+  `closeParen`), `alt1`/`alt1Tail` (node header; entity `{string}|{token}` with its fall-back),
+  `alt2` (`\s*\)`), `alt4` (`\s*{token}\s*\(?`).  `{token}` = `[^\s()]+` is `isAtomCh`/`takeAtom`,
+  `{string}` = `"[^"\\]*(?:\\.[^"\\]*)*"` is `strBody`/`takeString`, `\s` is `isWs`, `\d+` is `takeDigits`.
+  `c16UdfReFlags = 32` (re.UNICODE only): no DOTALL (the newline rule of `strBody`), no IGNORECASE, no
+  VERBOSE.  `c16UdfReGroups`: the raw group texts carried by `Ev`.
+* `c16UnquoteConsts`/`c16UnquoteNames` (`^"(.*)"$`, `\1`, `DOTALL`) — `unquoteBody`.
+* `c16UdfTokensConsts`/`Names` (`\s*(\d+)\s+({string})` through `findall`) — `tokAt`/`findToks`.
+* `c16FromStringConsts`/`Names` — `fromString`/`endsWithParen` (`(`, `)`, `s[1:]`), the dispatch order
+  done/form/id/root and the stack discipline of `run`, `decodeEntity` (`partition('@')`, `^`, `''`),
+  `mkNode` (`int`, `float`); `c16FromStringTopConsts`/`c16FromDictTopConsts` — `topCheck` receives head and type.
+* `c16FromDictConsts` — `fromDictAux`/`dictNode` (key names, `daughters` before `form`).
+* `c16ToUdfConsts` — `delim` (`' '`, newline), `decorate` (`^`, `@`), `header`/`inner` (the format
+  `({} {} {:g} {} {}{})`: scores are carried as their `{:g}` text), `tokText`/`termInner` (`"`, ` "`, `({})`);
+  `c16ToUdfMethodConsts`/`c16ToUdxMethodConsts`/`c16StrConsts` — `toUdf` starts at level 1, `udx=True`.
+* `c16ToDictRecConsts`, `c16AllFields` — `toDict` (key names; merge of a single terminal daughter).
+* `c16NodeNewConsts` (`-1.0`, `-1`) — `dictNode` defaults; with `c16DerivationInitConsts` — `topCheck`.
+* `c16IsRootConsts`, `c16TerminalIsRootConsts` — `Node.isRoot`; `c16IsHeadConsts`, `c16NodeEqConsts`/`Names`
+  (`lower`) — implementation-side only (oracle compares strings exactly).
+* `c16TerminalsConsts`, `c16PreterminalsConsts`, `c16InternalsConsts` — `terminals`/`preterminals`/`internals`.
+* `c16NodeFields`, `c16TerminalFields`, `c16TokenFields` — the constructors of `Node`/`Tok` and the harness's `build`.
+* `c16Defaults` — default arguments (`indent=1`, `udx=False`, `fields=_all_fields`, `parent=None`, …) the
+  harness and oracle rely on. -/
+
+open Verif.Tables in
+/-- the pinned constants have the values the model was written against -/
+theorem c16_pins :
+    c16UdfRePattern = "\\s*(?P<form>\"[^\"\\\\]*(?:\\\\.[^\"\\\\]*)*\")(\\s+(?P<lkb_start>\\d+)\\s+(?P<lkb_end>\\d+)|(?P<tokens>(?:\\s+[^\\s()]+\\s+\"[^\"\\\\]*(?:\\\\.[^\"\\\\]*)*\")*))?\\s*\\)|\\s*(?P<id>[^\\s()]+)\\s+(?P<entity>\"[^\"\\\\]*(?:\\\\.[^\"\\\\]*)*\"|[^\\s()]+)\\s+(?P<score>[^\\s()]+)\\s+(?P<start>[^\\s()]+)\\s+(?P<end>[^\\s()]+)\\s*\\(|\\s*(?P<done>\\))|\\s*(?P<root>[^\\s()]+)\\s*\\(?"
+    ∧ c16UdfReFlags = 32
+    ∧ c16UdfReGroups = ["form", "lkb_start", "lkb_end", "tokens", "id", "entity", "score", "start", "end", "done", "root"]
+    ∧ c16AllFields = ["form", "tokens", "id", "entity", "score", "start", "end", "daughters", "head", "type"]
+    ∧ c16NodeFields = ["id", "entity", "score", "start", "end", "daughters"]
+    ∧ c16TerminalFields = ["form", "tokens"]
+    ∧ c16TokenFields = ["id", "tfs"]
+    ∧ c16FromStringConsts = ["#None", "(", ")", "#('text',)", "#1", "done", "#0", "#-1", "form", "tokens", "", "#('tokens', 'parent')", "id", "entity", "@", "^", "#True", "score", "start", "end", "#('score', 'start', 'end', 'head', 'type', 'parent')", "root"]
+    ∧ c16UnquoteConsts = ["#None", "^\"(.*)\"$", "\\1", "#('flags',)"]
+    ∧ c16UdfTokensConsts = ["#None", "\\s*({id})\\s+({tfs})", "\\d+", "\"[^\"\\\\]*(?:\\\\.[^\"\\\\]*)*\"", "#('id', 'tfs')"]
+    ∧ c16FromDictConsts = ["#None", "daughters", "id", "entity", "score", "start", "end", "head", "type", "#('score', 'start', 'end', 'head', 'type', 'parent')", "#('parent',)", "#None", "form", "tokens", "tfs", "#('form', 'tokens', 'parent')"]
+    ∧ c16ToUdfConsts = ["#None", " ", "\n", "^", "@", "#1", "", "(", ")", "({} {} {:g} {} {}{})", "\"", " \"", "({})"]
+    ∧ c16ToDictRecConsts = ["#None", "entity", "id", "score", "start", "end", "type", "head", "#1", "#0", "daughters", "label", "form", "tokens", "tfs"]
+    ∧ c16NodeNewConsts = ["#None", "#-1.0", "#-1", "#None"]
+    ∧ c16DerivationInitConsts = ["#None", "#1", "#0"]
+    ∧ c16IsHeadConsts = ["daughters", "#None", "#1", "#True", "#None", "#False"]
+    ∧ c16IsRootConsts = ["#None"]
+    ∧ c16TerminalIsRootConsts = ["#False"]
+    ∧ c16TerminalsConsts = []
+    ∧ c16PreterminalsConsts = []
+    ∧ c16InternalsConsts = ["#None"]
+    ∧ c16FromStringTopConsts = ["#('head', 'type')"]
+    ∧ c16FromDictTopConsts = ["#('head', 'type')"]
+    ∧ c16ToUdfMethodConsts = ["#1"]
+    ∧ c16ToUdxMethodConsts = ["#1", "#True", "#('udx',)"]
+    ∧ c16StrConsts = ["#None", "#('indent',)"]
+    ∧ c16NodeEqConsts = ["#False", "#None", "#True"]
+    ∧ c16UnquoteNames = ["re", "sub", "DOTALL"]
+    ∧ c16UdfTokensNames = ["re", "findall", "format", "append", "UDFToken", "_unquote"]
+    ∧ c16FromStringNames = ["startswith", "endswith", "DerivationSyntaxError", "_udf_re", "finditer", "group", "pop", "len", "daughters", "append", "groupdict", "UDFTerminal", "_unquote", "_udf_tokens", "get", "partition", "UDFNode", "int", "float"]
+    ∧ c16NodeEqNames = ["isinstance", "UDFNode", "NotImplemented", "entity", "lower", "type", "is_head", "start", "end", "len", "daughters", "any", "zip"]
+    ∧ c16Defaults = ["to_udf (1,) None", "to_udx (1,) None", "to_dict (('form', 'tokens', 'id', 'entity', 'score', 'start', 'end', 'daughters', 'head', 'type'), None) None", "_to_udf (False,) None", "_from_dict (None,) None", "from_string None None", "from_dict None None", "UDFNode.__new__ (None, None, None, None, None, None, None) None", "Derivation.__init__ (None, None, None, None, None, None, None) None", "UDFTerminal.__new__ (None, None) None", "UDFToken.__new__ None None"] := by
+  refine ⟨?_, ?_, ?_, ?_, ?_, ?_, ?_, ?_, ?_, ?_, ?_, ?_, ?_, ?_, ?_, ?_, ?_, ?_, ?_, ?_, ?_, ?_, ?_, ?_, ?_, ?_, ?_, ?_, ?_, ?_, ?_, ?_⟩ <;> rfl
 
 end Verif.C16
